@@ -233,6 +233,33 @@ func registeredRefsRolledBack(r *core.Run) {
 				} else {
 					o.Auto("only the identity test `Schemas[k] == ref` guards the delete")
 				}
+				// (d) the roll-back only removes: nothing about a journalled ref is recorded in the cache
+				// (a journalled ref may be a neighbour that was built completely and correctly)
+				o2 := r.Add("R-ERR/rollback", "j5schema."+core.FuncName(rfd)+" | nothing is recorded per journalled ref", rs.Pos(), "the roll-back only removes")
+				var store ast.Node
+				ast.Inspect(rs.Body, func(m ast.Node) bool {
+					as, ok := m.(*ast.AssignStmt)
+					if !ok {
+						return true
+					}
+					for _, l := range as.Lhs {
+						switch lx := core.Unparen(l).(type) {
+						case *ast.IndexExpr:
+							store = lx
+						case *ast.SelectorExpr:
+							if as.Tok != token.DEFINE {
+								store = lx
+							}
+						}
+					}
+					return true
+				})
+				if store != nil {
+					o2.Pos = r.P.Rel(store.Pos())
+					o2.Fail("the roll-back stores into %s for every journalled ref: the journal also lists schemas that were built completely before a later neighbour failed, so a message that reflects correctly on its own is remembered as failed (or otherwise marked) because of the order of calls", core.NormExpr(info, store.(ast.Expr)))
+				} else {
+					o2.Auto("the loop over the journal deletes and stores nothing")
+				}
 				return true
 			})
 		}
